@@ -8,6 +8,7 @@ import (
 	"github.com/polynetwork/poly/common/config"
 	"github.com/polynetwork/poly/core/genesis"
 	"github.com/polynetwork/poly/native"
+	ccom "github.com/polynetwork/poly/native/service/cross_chain_manager/common"
 	"github.com/polynetwork/poly/native/service/cross_chain_manager/consensus_vote"
 	"github.com/polynetwork/poly/native/service/governance/neo3_state_manager"
 	"github.com/polynetwork/poly/native/service/governance/node_manager"
@@ -34,6 +35,7 @@ import (
 //	svreg|svrm <signers> <addr> <s1,s2,..>               RegisterStateValidator / RemoveStateValidator (strings as hex)
 //	svappr|svapprrm <signers> <id> <addr>
 //	vote <signers> <id> <addr>                           consensus_vote.CheckVotes
+//	deposit <signers> <relayer> <chain> <height> <extra> <vote id> <cross chain id|none>   VoteHandler.MakeDepositProposal
 //	sig <signers> <addr> <chainid> <subject> <sig> <sha256(subject)>   signature_manager.AddSignature
 //	dump                                                 full canonical state
 //
@@ -104,8 +106,11 @@ func (w *world) exec(r *hx.Run, op []string) (res string) {
 			}
 			idx, ok1 := u64(f[0])
 			a, ok2 := parseAddr(f[2])
-			if !ok1 || !ok2 || !w.keyKnown(f[1]) {
+			if !ok1 || !ok2 {
 				return "bad-op"
+			}
+			if !w.keyKnown(f[1]) {
+				return w.undeclared()
 			}
 			cfg.Peers = append(cfg.Peers, &config.VBFTPeerInfo{Index: uint32(idx), PeerPubkey: strTok(f[1]), Address: a.ToBase58()})
 		}
@@ -120,8 +125,11 @@ func (w *world) exec(r *hx.Run, op []string) (res string) {
 		}
 		signers, ok1 := parseSigners(op[1])
 		a, ok2 := parseAddr(op[3])
-		if !ok1 || !ok2 || !w.keyKnown(op[2]) {
+		if !ok1 || !ok2 {
 			return "bad-op"
+		}
+		if !w.keyKnown(op[2]) {
+			return w.undeclared()
 		}
 		sink := common.NewZeroCopySink(nil)
 		(&node_manager.PeerParam{PeerPubkey: strTok(op[2]), Address: a}).Serialization(sink)
@@ -140,7 +148,7 @@ func (w *world) exec(r *hx.Run, op []string) (res string) {
 		p := &node_manager.PeerListParam{Address: a}
 		for _, k := range op[3:] {
 			if !w.keyKnown(k) {
-				return "bad-op"
+				return w.undeclared()
 			}
 			p.PeerPubkeyList = append(p.PeerPubkeyList, strTok(k))
 		}
@@ -303,6 +311,36 @@ func (w *world) exec(r *hx.Run, op []string) (res string) {
 		}
 		id := hx.UnHex(op[2])
 		cr = w.direct(signers, func(svc *native.NativeService) (bool, error) { return consensus_vote.CheckVotes(svc, id, a) })
+	case "deposit":
+		if len(op) != 8 {
+			return "bad-op"
+		}
+		signers, ok1 := parseSigners(op[1])
+		rel, ok2 := parseAddr(op[2])
+		chain, ok3 := u64(op[3])
+		ht, ok4 := u64(op[4])
+		if !(ok1 && ok2 && ok3 && ok4) || ht > 0xffffffff {
+			return "bad-op"
+		}
+		extra := hx.UnHex(op[5])
+		// oracle values of the op line: the vote id and the cross chain id inside the payload
+		unique := &ccom.EntranceParam{SourceChainID: chain, Height: uint32(ht), Extra: extra}
+		us := common.NewZeroCopySink(nil)
+		unique.Serialization(us)
+		ccid := "none"
+		mtp := new(ccom.MakeTxParam)
+		if err := mtp.Deserialization(common.NewZeroCopySource(extra)); err == nil {
+			ccid = hx.Hex(mtp.CrossChainID)
+		}
+		if sha256hex(us.Bytes()) != op[6] || ccid != op[7] {
+			return "bad-op"
+		}
+		in := common.NewZeroCopySink(nil)
+		(&ccom.EntranceParam{SourceChainID: chain, Height: uint32(ht), Extra: extra, RelayerAddress: rel[:]}).Serialization(in)
+		cr = w.directIn(signers, in.Bytes(), func(svc *native.NativeService) (bool, error) {
+			p, err := consensus_vote.NewVoteHandler().MakeDepositProposal(svc)
+			return p != nil, err
+		})
 	case "sig":
 		if len(op) != 7 {
 			return "bad-op"
